@@ -40,6 +40,9 @@ CURATED = [
     ("pstring", 5, "utf_16_le", 1), ("pstring", 13, "utf_16_le", 2), ("pstring", 7, "utf_32_be", 1), ("pstring", 3, "utf_16_le", 1),
     ("struct", (("s", ("pstring", 5, "utf_16_le", 2)), ("t", common.I8))),
     ("flagsenum", common.I8, (("read", 1), ("write", 2), ("readwrite", 3), ("x", 16))),
+    ("adapt", common.I16b, "inc"), ("adapt", common.I8, "xor"), ("adapt", ("fmt", "Int16sb"), "cls"), ("adapt", common.VAR, "inc"),
+    ("struct", (("n", ("adapt", common.I8, "inc")), ("d", ("bytesctx", "n", 3)), ("t", ("adapt", ("fmt", "Int32sl"), "cls")))),
+    ("array", 2, ("adapt", common.I16l, "xor")), ("prefixed", ("adapt", common.I8, "inc"), GB, False),
     ("struct", (("s", ("select", (("struct", (("a", common.I32), ("b", common.I16b), ("c", common.I8))), ("struct", (("a", common.I8),))))), ("rest", ("greedybytes", 1)))),
     ("prefixed", common.I8, ("select", (("struct", (("a", common.I32), ("b", common.I16b))), ("struct", (("a", common.I8),)))), False),
     ("repeatuntil", 0, common.I8, 3), ("struct", (("x", common.I8), ("y", ("computed", "x")), ("z", common.I8))),
